@@ -225,12 +225,14 @@ def evaluator_agreement_rules(rep, prog):
     # (1) every column the matcher pushes into an index filter has an index on that kind's collection
     created = {}
     shared = set()
+    opaque = set()
     for f in prog.fns.values():
         if not f.path.startswith(nx.N + "::store::") or f.kind == "Closure":
             continue
         body = prog.async_body(f) or f
         cols = set()
         for e in body.calls_named(r"Collection::create_btree_index(_nx)?$"):
+            before_ = len(cols)
             for o in body.slice_back_op(e.args[1]) if len(e.args) > 1 else []:
                 if o[0] == "agg":
                     for op in o[1][2].get("ops", []):
@@ -238,18 +240,23 @@ def evaluator_agreement_rules(rep, prog):
                             cols.add(_sconst(op["k"]))
                 elif o[0] == "const" and _sconst(o[1]) is not None:
                     cols.add(_sconst(o[1]))
-        if cols:
+            if len(cols) == before_:
+                opaque.add(f.path.rsplit("::", 1)[1])       # the column comes from a table the facts do not expose (a loop over a const array)
+        if cols or f.path.rsplit("::", 1)[1] in opaque:
             created[f.path.rsplit("::", 1)[1]] = cols
     init_of = {}
+    opaque_kinds = set()
     for name, cols in created.items():
         low = name.lower()
         for kd, frag in (("Concept", "concept"), ("Proposition", "proposition"), ("Assertion", "assertion"), ("Evidence", "evidence"), ("Activity", "activit")):
             if frag in low:
                 init_of[kd] = cols
+                if name in opaque:
+                    opaque_kinds.add(kd)
         if "envelope" in low:
             shared |= cols
     rep.note("indexes_created", {k: sorted(v) for k, v in created.items()})
-    if len(init_of) < 5 or not shared:
+    if len(init_of) < 5 or (not shared and "init_envelope" not in opaque):
         raise CheckerFault("anchor missing: per-kind index creation functions (%s) / shared envelope indexes" % sorted(created))
     for (kd, key), cols in sorted(ctab.items(), key=str):
         for col in cols:
@@ -257,6 +264,10 @@ def evaluator_agreement_rules(rep, prog):
                 continue
             for k2 in ([kd] if kd else sorted(init_of)):
                 have = init_of[k2] | shared
+                if k2 in opaque_kinds and col not in have:
+                    rep.ob("R18.5", "index-exists|%s.%s->%s" % (k2, key, col), True,
+                           "not decided: the index columns of this kind are created from a table (a loop over a constant array) the facts do not expose", co.file)
+                    continue
                 rep.ob("R18.5", "index-exists|%s.%s->%s" % (k2, key, col), col in have,
                        "column_of pushes `{%s: ..}` on %s into a filter on column `%s`, and no function under store:: creates a B-tree index `%s` for that "
                        "collection: the present answers an index error where AS OF answers rows" % (key, k2, col, col), co.file + ":%d" % co.line)
